@@ -181,6 +181,11 @@ func (plugin) CallStack(data interface{}) map[string]interface{} {
 					simrt.Sleep(time.Duration(h.DelayMs) * time.Millisecond)
 				}
 				if h.Fail {
+					if h.Critical {
+						w.c.Count("fault.critical_hook_fails")
+					} else {
+						w.c.Count("fault.noncritical_hook_fails")
+					}
 					call.VarStack["__call_error"] = "probe " + h.Name + " failed on purpose"
 				}
 			}
@@ -480,6 +485,7 @@ func body(c *hk.Ctx) {
 					}
 					w.add(&rec{kind: "body-end", name: r.Event})
 					if r.BodyFail {
+						w.c.Count("fault.task_transition_fails")
 						return fmt.Errorf("tasks failed to %s", r.Event)
 					}
 					return nil
